@@ -25,7 +25,9 @@ Pattern Guide 02 "Basic Vocabulary": patterns may be used for most numeric
 arguments, "if any one of the argument streams ends, the pattern ends"): a
 pattern stops as soon as one of the streams it needs a value from has ended.
 Because all streams here are pure, the order in which a clause pulls from its
-parameter streams is not observable in the produced sequence.
+parameter streams is not observable in the produced sequence; it is asserted
+only for operator patterns and Ptuple (operands left to right, see d_binop),
+through call-logging functions in the `order` stage of the check.
 
 Where the documentation leaves a case open the clause raises `Undecided`
 (the check then rejects the input instead of asserting anything):
@@ -35,7 +37,9 @@ Where the documentation leaves a case open the clause raises `Undecided`
 * non positive clump sizes, negative stutter counts;
 * Pseq/Place offsets outside the list, Pswitch indices outside the list;
 * Pslide without wrapping is decided ("the pattern stops if it ... goes
-  outside the list bounds") for both ends of the list.
+  outside the list bounds") for both ends of the list; the clause records
+  the event `pslide_nowrap_below_list` and has a `quirk` reproducing the
+  library's known deviation (see known_findings/C13.json).
 
 Random patterns (Prand, Pxrand, Pwrand, Pshuffle, Pwhite) have no denotation
 without a random source.  They only occur below `Pseed`; the model asks the
